@@ -126,4 +126,36 @@ theorem replaceCrcField_not_matches {msg f : Bytes} (h8 : 8 ≤ msg.length) (hf 
   intro h
   exact hne (u32le_four_inj hf (by simp; omega) h.symm)
 
+section replace
+variable {x f : Bytes}
+
+theorem replaceCrcField_length (h8 : 8 ≤ x.length) (hf : f.length = 4) :
+    (replaceCrcField x f).length = x.length := by
+  simp [replaceCrcField, hf]; omega
+
+theorem replaceCrcField_drop8 (h8 : 8 ≤ x.length) (hf : f.length = 4) :
+    (replaceCrcField x f).drop 8 = x.drop 8 := by
+  unfold replaceCrcField
+  rw [List.drop_append_of_le_length (by simp; omega), List.drop_of_length_le (by simp; omega), List.nil_append]
+
+theorem replaceCrcField_crcField (h8 : 8 ≤ x.length) (hf : f.length = 4) :
+    u32le (replaceCrcField x f) 4 = u32le f 0 := by
+  unfold replaceCrcField
+  have hlen4 : (x.take 4).length = 4 := by simp; omega
+  rw [List.append_assoc]
+  have := u32le_shift (x.take 4) (f ++ x.drop 8) 0
+  rw [hlen4] at this; rw [this, u32le_append (by omega)]
+
+theorem replaceCrcField_size (h24 : 24 ≤ x.length) (hf : f.length = 4) :
+    u32le (replaceCrcField x f) 16 = u32le x 16 := by
+  unfold replaceCrcField
+  have h4 : (x.take 4 ++ f).length = 8 := by simp [hf]; omega
+  have := u32le_shift (x.take 4 ++ f) (x.drop 8) 8
+  rw [h4] at this; rw [this]
+  have h2 := u32le_shift (x.take 8) (x.drop 8) 8
+  rw [List.take_append_drop, show (x.take 8).length = 8 by simp; omega] at h2
+  exact h2.symm
+
+end replace
+
 end FeVerif
